@@ -1,6 +1,6 @@
 #!/bin/sh
 # usage: tools_try_seed.sh <patch.diff> <ID> [tier]  -- applies a seeded change to /repo, runs the check, undoes it
-P=$1; ID=$2; T=${3:-quick}
+P=$1; ID=$2; T=${3:-quick}; [ -f "$P" ] || P=/verif/seeded/$1/patch.diff
 git -C /repo apply "$P" || { echo "PATCH DOES NOT APPLY"; exit 9; }
 /verif/check "$ID" --tier "$T" > /tmp/seed_try.out 2>&1; RC=$?
 tail -${LINES_OUT:-8} /tmp/seed_try.out
